@@ -266,9 +266,38 @@ def case_same_object(ctx, kind, ns, seq):
         have_output = True
 
 
+def case_failed_verification(ctx, ns, shank):
+    """a split file is damaged after the split; the verification step then either finds the (arbitrary) new content equal
+    or reports the mismatch - after a reported mismatch the deletion step must leave the original alone"""
+    import neuropixel
+    F, raw, nc = _mk_original("NP2.4", ns)
+    conv = ctx.call("converter", neuropixel.NP2Converter, FakePath(ORIG), post_check=False, compress=False, delete_original=True)
+    conv.init_params(nwindow=1200)
+    r = ctx.call("process", conv.process)
+    ctx.oblige("unverified_run_keeps_the_original", r == 1 and _orig_intact(F, raw), detail={"status": r})
+    f = F.get(f"/s/probe00{chr(97 + shank)}/x.imec0.ap.bin")
+    if not ctx.oblige("split_file_written", f is not None and bool(f.exists) and isinstance(f.content, list) and len(f.content) > 0):
+        return
+    rec = f.content[0]
+    rec["array"] = np2env.raw_array(rec["array"].shape[0], rec["array"].shape[1], name="DAMAGED", aid="damaged")
+    reported = False
+    try:
+        conv.check_NP24()
+    except AssertionError:
+        reported = True
+    ctx.call("delete_step", conv.delete_NP24)
+    if reported:
+        ctx.oblige("failed_verification_does_not_mark_the_check_completed", conv.check_completed is not True, detail={"check_completed": conv.check_completed})
+        ctx.oblige("original_kept_after_a_failed_verification", _orig_intact(F, raw))
+    else:
+        ctx.oblige("original_removed_only_after_successful_verification", conv.check_completed is True)
+
+
 def cases(tier):
     b = bounds(tier)
     cs = []
+    for sh in ((0,) if tier == "quick" else (0, 1)):
+        cs.append(Case(f"np24_failed_verification_shank{sh}", "case_failed_verification", {"ns": 600, "shank": sh}, timeout_s=2400))
     for seq in (["FFT", "FTF"] if tier == "quick" else ["FFT", "FTF", "TFT", "FFFT", "FTT"]):
         cs.append(Case(f"np24_same_object_{seq}", "case_same_object", {"kind": "NP2.4", "ns": 600, "seq": seq}, timeout_s=2400))
     cs.append(Case("np21_same_object_FFT", "case_same_object", {"kind": "NP2.1", "ns": 600, "seq": "FFT"}, timeout_s=2400))
@@ -304,6 +333,8 @@ def twins(tier):
         Twin("already_exists_inverted", m, "            if not probe_path.exists() or overwrite:", "            if probe_path.exists() or overwrite:", un),
         Twin("np21_unlink_before_compress", m, "                cbin_file = self.sr.compress_file()\n                self.sr.close()\n                self.ap_file.unlink()",
              "                self.sr.close()\n                self.ap_file.unlink()\n                cbin_file = self.sr.compress_file()", ["np21_thenNone"] + [f"np21_fault{k}_thenT" for k in range(0, 60, 3)]),
+        Twin("check_completed_before_the_comparison", m, "        for sh in self.shank_info.keys():\n            self.shank_info[sh][\"sr\"] = spikeglx.Reader(self.shank_info[sh][\"ap_file\"], sort=False)\n        wg = WindowGenerator(self.nsamples, self.samples_window, 0)",
+             "        self.check_completed = True\n        for sh in self.shank_info.keys():\n            self.shank_info[sh][\"sr\"] = spikeglx.Reader(self.shank_info[sh][\"ap_file\"], sort=False)\n        wg = WindowGenerator(self.nsamples, self.samples_window, 0)", ["np24_failed_verification_shank0"]),
         Twin("already_exists_sticky", m, "        shank_info = {}\n        self.already_exists = False\n\n        for sh in n_shanks:", "        shank_info = {}\n        self.already_exists = getattr(self, \"already_exists\", False)\n\n        for sh in n_shanks:", ["np24_same_object_FFT"]),
         Twin("rerun_reprocesses", m, "        if self.already_exists:\n            _logger.warning(\n                \"One or more of the sub shank folders already exists, \"\n                \"to force reprocessing set overwrite to True\"\n            )\n            return 0",
              "        if self.already_exists and False:\n            return 0", ["np24_ns600_ow0_thenF"]),
@@ -313,9 +344,28 @@ def twins(tier):
 def replay(case, params, cex):
     m = cex["model"]
     opts = {"post_check": bool(m.get("post_check")), "compress": bool(m.get("compress")), "delete_original": bool(m.get("delete_original"))}
-    kind, ns = params["kind"], params["ns"]
+    kind, ns = params.get("kind", "NP2.4"), params["ns"]
     fault1, ow1, second, third = params.get("fault1"), params.get("overwrite1", False), params.get("second"), params.get("third")
     full = _replay_text(cex, opts, kind, ns, fault1, ow1, second, third)
+    if "failed_verification" in case:
+        return full.split("from symex import realfault")[0] + f"""
+shank = {params['shank']}
+conv = neuropixel.NP2Converter(orig, post_check=False, compress=False, delete_original=True)
+conv.init_params(nwindow=1200)
+st = conv.process()
+f = root / 's' / f'probe00{{chr(97 + shank)}}' / 'x.imec0.ap.bin'
+a = np.fromfile(f, dtype=np.int16); a[:5] += 7; a.tofile(f)          # damage the split file
+reported = False
+try:
+    conv.check_NP24()
+except AssertionError as e:
+    reported = True
+conv.delete_NP24()
+print('status', st, 'mismatch reported', reported, 'check_completed', conv.check_completed, 'original exists', orig.exists())
+if not reported: not_reproduced('the verification did not report the damaged file')
+if conv.check_completed is True or not orig.exists(): reproduced(f'after a FAILED verification check_completed={{conv.check_completed}} and the deletion step removed the original: {{not orig.exists()}}')
+not_reproduced()
+"""
     if "same_object" in case:
         opts["delete_original"] = False
         full = _replay_text(cex, opts, kind, ns, fault1, ow1, second, third)
